@@ -45,6 +45,8 @@ func checkC06(c *Ctx) {
 	c.Rule("R6.4", "ioCore.Write syncs after the write for DPanic/Panic/Fatal; BufferedWriteSyncer.Sync always syncs the sink", 4)
 	c.Rule("R6.13", "CheckedEntry.After installs the hook it is given unconditionally (the Logger's terminal action is registered last and replaces any hook a core registered)", 1)
 	c6AfterInstalls(c, "R6.13")
+	c.Rule("R6.14", "the deprecated OnFatal hands the action it was given itself to the fatal-hook option: the Logger recognises a no-op action by comparing it with WriteThenNoop, which a wrapped action never equals", 1)
+	c6OnFatalPassesAction(c, "R6.14")
 	c.Rule("R6.5", "default actions: panic(message) / exit.With(1) -> os.Exit / Goexit; exit function only written by the stub helpers, which non-test code never calls", 5)
 	c.Rule("R6.7", "Config wires development mode (DPanic panics) exactly under Config.Development", 1)
 	if g, pos, ok := ConfigOptionGuards(c, "Development"); ok {
@@ -1509,4 +1511,30 @@ func c6GrpcRoutes(c *Ctx, rule string) {
 		}
 		c.Check(ok, rule, FStr(fn), "routes", fn.Pos(), "forwards to l.%s (found %d%s)", target, n, map[bool]string{true: "", false: "; not on every path"}[ok || n != 1])
 	}
+}
+
+// c6OnFatalPassesAction: every call in OnFatal that takes a CheckWriteHook gets the parameter itself (converted to the
+// interface and nothing else).
+func c6OnFatalPassesAction(c *Ctx, rule string) {
+	fn := c.Func("go.uber.org/zap", "OnFatal")
+	if !c.Anchor(rule, "zap.OnFatal", fn != nil && len(fn.Params) == 1) {
+		return
+	}
+	n := 0
+	var bad []string
+	for _, g := range WithClosures(fn) {
+		for _, cl := range Calls(g) {
+			for _, a := range cl.Common().Args {
+				if TypeName(a.Type()) != "zapcore.CheckWriteHook" {
+					continue
+				}
+				n++
+				mi, ok := a.(*ssa.MakeInterface)
+				if !ok || mi.X != ssa.Value(fn.Params[0]) {
+					bad = append(bad, FNm(g)+": "+a.String())
+				}
+			}
+		}
+	}
+	c.Check(n > 0 && len(bad) == 0, rule, FStr(fn), "passes-the-action-itself", fn.Pos(), "the hook OnFatal installs is its parameter converted to the interface (%d sites; not: %v)", n, bad)
 }
